@@ -1,3 +1,4 @@
+pub mod catp;
 pub mod plogp;
 pub mod plogp2;
 
@@ -8,6 +9,7 @@ pub fn plan(prop: &str, tier: &str) -> Option<(PropMeta, Vec<Job>)> {
     match prop {
         "C01" | "C02" | "C03" => Some(plogp::plan(prop, tier)),
         "C14" | "C15" | "C16" | "C18" => Some(plogp2::plan(prop, tier)),
+        "C05" | "C06" => Some(catp::plan(prop, tier)),
         _ => None,
     }
 }
@@ -16,6 +18,7 @@ pub fn run_job(job: &Job) -> JobResult {
     match job.prop.as_str() {
         "C01" | "C02" | "C03" => plogp::run_job(job),
         "C14" | "C15" | "C16" | "C18" => plogp2::run_job(job),
+        "C05" | "C06" => catp::run_job(job),
         p => JobResult { machinery_error: Some(format!("unknown property {p}")), ..Default::default() },
     }
 }
@@ -24,6 +27,7 @@ pub fn run_job(job: &Job) -> JobResult {
 pub fn replay(prop: &str, replay: &Value) -> Vec<Violation> {
     match replay.get("kind").and_then(|k| k.as_str()) {
         Some("plog") => plogp::replay(prop, replay),
+        Some("cat") => catp::replay(prop, replay),
         _ => Vec::new(),
     }
 }
